@@ -21,6 +21,8 @@
  * are scheduling points.
  * Condition variables are modelled here (the real object is never waited on); mutexes are modelled
  * AND really try-locked so that the real object state stays consistent.
+ * Scheduling points lie BEFORE every hooked operation and additionally AFTER pthread_mutex_unlock and
+ * pthread_create (the code that follows those two is what an unsynchronised access would race with).
  * Not modelled: spurious condition-variable wake-ups; a timed condition wait times out only while
  * its mutex is free (timeout + re-acquisition are one step).
  * This TU is compiled without sanitizer instrumentation. */
@@ -303,6 +305,7 @@ int pthread_create (pthread_t *th, const pthread_attr_t *attr, void *(*fn) (void
   int r = REAL (pthread_create) (th, attr, tramp, &T[i]);
   if (r) { T[i].used = 0; return r; }
   T[i].pth = *th;
+  step ("created");             /* the new thread may run before the creator's next statement */
   return 0;
 }
 
@@ -346,7 +349,12 @@ int pthread_mutex_unlock (pthread_mutex_t *m) {
   if (!MANAGED ()) return REAL (pthread_mutex_unlock) (m);
   step ("unlock");
   *mowner (m) = -1;
-  return REAL (pthread_mutex_unlock) (m);
+  int r = REAL (pthread_mutex_unlock) (m);
+  /* second scheduling point AFTER the release: what the thread does next is no longer protected by the
+   * mutex, so another thread must be able to run between the unlock and that code (e.g. a copy out of a
+   * shared slot that was moved behind the unlock) -- a point only before each operation cannot show that */
+  step ("unlocked");
+  return r;
 }
 
 /* ------------------------------------------------------------------ condition variables (modelled) */
